@@ -73,7 +73,7 @@ static void r_poke(const Args &a) {      // position the byte counter (documente
 }
 static void fill_storage(ascon_storage_t &s, const Args &a) {
     memset(&s, 0, sizeof s);
-    s.page_size = 1; s.erase_size = (size_t)a.num("erase_size", 0); s.address = 0; s.size = (size_t)a.num("size", 64);
+    s.page_size = (size_t)a.num("page", 1); s.erase_size = (size_t)a.num("erase_size", 0); s.address = 0; s.size = (size_t)a.num("size", 64);
     s.partial_writes = 0; s.read = st_read; s.write = st_write;
     g_rres = (int)a.num("rres", 32); g_wres = (int)a.num("wres", 32);
     if (a.has("content")) g_store = a.hex("content");
